@@ -7,6 +7,8 @@ package leveldb
 // writeLocked and unlockWrite are the tree's code.
 
 import (
+	"container/list"
+
 	"github.com/syndtr/goleveldb/leveldb/memdb"
 	"github.com/syndtr/goleveldb/leveldb/opt"
 	"github.com/syndtr/goleveldb/leveldb/storage"
@@ -221,4 +223,39 @@ func ZZ_C10_merge2_close() {
 		}
 	}
 	vpAssert(mem.Len() >= acked, "buffer-holds-the-acknowledged-writes")
+}
+
+// C05-batch (kernel): a reader never sees part of a batch. One thread writes a
+// two-record batch through the real DB.Write; a reader thread takes a snapshot
+// sequence (the real acquireSnapshot) and reads both keys at it through the
+// real DB.get, under every interleaving at synchronisation operations within
+// the switch bound: it sees both records or neither; a read that starts after
+// Write returned sees both.
+func ZZ_C05_batch_atomic() {
+	zzGroups, zzInGroup = nil, 0
+	zzFreeSmall = false
+	zzJournalFail = make([]bool, 2)
+	db := zzMergeDB()
+	db.snapsList = list.New()
+	wrote := 0
+	go func() {
+		b := new(Batch)
+		b.Put([]byte("k1"), []byte("v"))
+		b.Put([]byte("k2"), []byte("v"))
+		vpAssert(db.Write(b, nil) == nil, "write-ok")
+		wrote++
+	}()
+	go func() {
+		wroteBefore := wrote == 1
+		se := db.acquireSnapshot()
+		_, e1 := db.get(nil, nil, []byte("k1"), se.seq, nil)
+		_, e2 := db.get(nil, nil, []byte("k2"), se.seq, nil)
+		db.releaseSnapshot(se)
+		vpAssert((e1 == nil) == (e2 == nil), "reader-sees-the-whole-batch-or-nothing")
+		vpAssert(e1 == nil || e1 == ErrNotFound, "read-error-kind")
+		if wroteBefore {
+			vpAssert(e1 == nil && e2 == nil, "read-after-write-returned-sees-the-batch")
+		}
+	}()
+	vpJoin()
 }
